@@ -33,6 +33,10 @@ var c10T = []truthVal{
 	{"m", func() any { return map[string]any{} }, true}, {"x", func() any { return "x" }, true}, {"h", func() any { return 1.5 }, true},
 	// empty collections are truthy whatever their Go representation (nil slice, nil map)
 	{"ns", func() any { return []string(nil) }, true}, {"nm", func() any { return map[string]any(nil) }, true},
+	// Drops are judged by the value they yield, pointers by what they point at
+	{"dn", func() any { return univ.Drop{V: nil} }, false}, {"df", func() any { return univ.Drop{V: false} }, false},
+	{"dt", func() any { return univ.Drop{V: true} }, true}, {"dz", func() any { return &univ.PDrop{V: 0} }, true},
+	{"pf", func() any { f := false; return &f }, false},
 }
 
 func c10Bind() map[string]any {
